@@ -12,18 +12,19 @@ Definition show_res (r : res) : string :=
   | RDeclared => "err:DeclaredError" | RFatal => "err:FatalError" | RUnknown => "err:UnknownRemoteError"
   | RUnhandled => "err:UnhandledCommand" | RLost => "err:ConnectionDone"
   end.
-Definition show_ev (e : ev) : string :=
+Definition show_ev (e : ev) : list string :=
   match e with
-  | EInvoke p c => "I" ++ show_peer p ++ ":" ++ show_nat c
-  | EFire p c => "F" ++ show_peer p ++ ":" ++ show_nat c
-  | EResult c r => "C" ++ show_nat c ++ "=" ++ show_res r
-  | ENested c => "N" ++ show_nat c
-  | ELost => "X"
-  | EQuit => "Q"
-  | ENoop => "-"
+  | EInvoke p c => ["I" ++ show_peer p ++ ":" ++ show_nat c]
+  | EFire p c _ => ["F" ++ show_peer p ++ ":" ++ show_nat c]
+  | EResult c r => ["C" ++ show_nat c ++ "=" ++ show_res r]
+  | ENested c => ["N" ++ show_nat c]
+  | ELost => ["X"]
+  | EQuit => ["Q"]
+  | ENoop => ["-"]
+  | ECall _ _ | EProduced _ _ => []
   end.
 Definition show_group (g : list ev) : string :=
-  match g with [] => "." | _ => String.concat "," (map show_ev g) end.
+  match flat_map show_ev g with [] => "." | l => String.concat "," l end.
 
 Definition run_show (ops : list op) : string :=
   let '(s, gs) := run init ops in
